@@ -443,6 +443,7 @@ func init() {
 				cfg := baseCfg()
 				cfg.IllTyped = 0
 				cfg.BadAllot = 20
+				cfg.WorldSub = i%3 == 1
 				cfg.MaxStmts = 3
 				cfg.CallWeight = 40
 				cfg.NoWorldVars = true
@@ -509,6 +510,7 @@ func init() {
 			cfg.BadAllot = 0
 			cfg.MaxStmts = 4
 			cfg.CallWeight = 30
+			cfg.WorldSub = i%3 == 1
 			if i%5 == 4 {
 				cfg.IllTyped = 15
 				cfg.BadAllot = 60
